@@ -63,6 +63,16 @@ Theorem C02_group_counts : forall m nm k,
 Proof. exact raw_groups_count. Qed.
 Print Assumptions C02_group_counts.
 
+(* "each correction descriptor is counted once per distinct set of matched atoms": the tuples that are counted represent
+   every match (same atom set) and no atom set twice; the count is their number *)
+Theorem C02_descriptor_sets_cover : forall l x, In x l -> exists y, In y (distinct_sets l) /\ same_set x y = true.
+Proof. exact distinct_sets_cover. Qed.
+Theorem C02_descriptor_sets_once : forall l, ForallOrdPairs (fun a b => same_set a b = false) (distinct_sets l).
+Proof. exact distinct_sets_distinct. Qed.
+Theorem C02_same_set_is_set_equality : forall a b, same_set a b = true <-> (forall x, In x a <-> In x b).
+Proof. exact same_set_spec. Qed.
+Print Assumptions C02_descriptor_sets_once.
+
 Theorem C02_only_pattern_error : forall sch m e, assign_centres sch m = SRaise e -> e = PatternMatch.
 Proof. exact centres_only_pattern_error. Qed.
 Print Assumptions C02_only_pattern_error.
